@@ -14,6 +14,7 @@ import (
 func init() {
 	vk.Register("C11", "exh", runC11)
 	vk.Register("C11", "rand", runC11)
+	vk.Register("C11", "alias", runC11)
 	vk.Register("C12", "lisexh", runC12Seq)
 	vk.Register("C12", "lisrand", runC12Seq)
 	vk.Register("C12", "lcsexh", runC12LCS)
@@ -383,6 +384,14 @@ func genPair(t *rapid.T, k, maxLen int) (a, b []int) {
 func genEditCase(t *rapid.T) EditCase {
 	k := rapid.IntRange(2, 4).Draw(t, "alphabet")
 	a, b := genPair(t, k, 60)
+	if rapid.IntRange(0, 5).Draw(t, "shared") == 0 && len(a) > 0 {
+		// two windows of one buffer
+		w := func(label string) [2]int {
+			i := rapid.IntRange(0, len(a)).Draw(t, label+"lo")
+			return [2]int{i, rapid.IntRange(i, len(a)).Draw(t, label+"hi")}
+		}
+		return EditCase{Buf: a, LV: w("l"), RV: w("r")}
+	}
 	return EditCase{Lhs: a, Rhs: b}
 }
 
@@ -404,6 +413,43 @@ func TestC11Exhaustive(t *testing.T) {
 			}) {
 				break
 			}
+		}
+	}
+	e.finish(true)
+}
+
+// TestC11Alias: lhs and rhs are two views of ONE backing array (a slice
+// against its own prefix, suffix, or any other window): every buffer over
+// {0,1,2} up to a length bound x every ordered pair of windows.
+func TestC11Alias(t *testing.T) {
+	h := vk.Start(t, "C11", "alias")
+	e := newExh(h, t, c11Names, checkEdit)
+	maxLen := h.Pick(6, 8)
+	for l := 1; l <= maxLen; l++ {
+		nbuf := 1
+		for i := 0; i < l; i++ {
+			nbuf *= 3
+		}
+		var views [][2]int
+		for i := 0; i <= l; i++ {
+			for j := i; j <= l; j++ {
+				views = append(views, [2]int{i, j})
+			}
+		}
+		nv := len(views)
+		if !e.level(nbuf*nv*nv, func(idx int) (EditCase, bool) {
+			b, lv, rv := idx/(nv*nv), views[idx/nv%nv], views[idx%nv]
+			if lv[1] != l && rv[1] != l { // some view must reach the end: shorter buffers were covered at a smaller l
+				return EditCase{}, false
+			}
+			buf := make([]int, l)
+			for i := range buf {
+				buf[i] = b % 3
+				b /= 3
+			}
+			return EditCase{Buf: buf, LV: lv, RV: rv}, true
+		}) {
+			break
 		}
 	}
 	e.finish(true)
